@@ -9,6 +9,7 @@ use lucid_suggest_core as core;
 use core::verif::*;
 use core::{Store, TextOwn, Word, tokenize_query};
 use core::tokenization::tokenize_record;
+use core::lang::{CharClass, CharPattern};
 use std::collections::{BTreeMap, BTreeSet};
 
 pub struct Failure { pub what: String, pub case: Case }
@@ -282,7 +283,59 @@ fn p01(p: &mut ProbeReport, r: &mut Rng, budget: usize) {
 }
 
 // ---------------- C02: titles are the stored titles, only decorated ----------------
+/// C02 through the top-level API: per id the records added since its creation (or since the store was cleared); after
+/// every search each hit's id must be one of them and its title, sentinel markers deleted, that record's composed
+/// title. Each generated sequence ends, for every live id, with destroy + create under the same id + its last query
+/// again (an empty store), then one add and the query once more.
+fn reg_hits_were_added(p: &mut ProbeReport, r: &mut Rng, rounds: usize) {
+    for round in 0..rounds {
+        let mut case = reg_cases(r, 1).remove(0);
+        // tail: what is live at the end, and the last query per id
+        let mut live: Vec<(usize, String)> = vec![];
+        let mut lastq: BTreeMap<usize, String> = BTreeMap::new();
+        for op in &case.ops { match op { Op::RCreate(id, l) => live.push((*id, l.clone())), Op::RDestroy(id) => live.retain(|e| e.0 != *id), Op::RSearch(id, q) => { lastq.insert(*id, q.clone()); } _ => {} } }
+        for (k, (id, l)) in live.iter().enumerate() {
+            let q = lastq.get(id).cloned().unwrap_or_else(|| "a".to_string());
+            let _ = k;
+            case.ops.push(Op::RDestroy(*id)); case.ops.push(Op::RCreate(*id, l.clone())); case.ops.push(Op::RSearch(*id, q.clone()));
+            case.ops.push(Op::RAdd(*id, 77, 1, q.clone())); case.ops.push(Op::RSearch(*id, q));
+        }
+        let mut added: BTreeMap<usize, (String, Vec<(usize, String)>)> = BTreeMap::new();
+        let mut live_now: Vec<usize> = vec![];
+        let mut failure: Option<(String, usize)> = None;
+        let res = guarded(|| {
+            for (k, op) in case.ops.iter().enumerate() {
+                match op {
+                    Op::RCreate(id, l) => { core::create_store(*id, make_lang(l)); core::highlight_with(*id, (&ML.to_string(), &MR.to_string())); added.insert(*id, (l.clone(), vec![])); live_now.push(*id); }
+                    Op::RDestroy(id) => { core::destroy_store(*id); added.remove(id); live_now.retain(|x| x != id); }
+                    Op::RMarkers(..) => {}     // the sentinels stay configured
+                    Op::RLimit(id, n) => core::set_limit(*id, *n),
+                    Op::RAdd(id, rid, rating, t) => { if has_sentinel(t) { continue; } core::add_record(*id, *rid, t, *rating); added.get_mut(id).unwrap().1.push((*rid, t.clone())); }
+                    Op::RSearch(id, q) => {
+                        core::run_search(*id, q);
+                        let got: Vec<(usize, String)> = core::using_results(*id, |rs| rs.iter().map(|x| (x.id, x.title.clone())).collect());
+                        let (l, recs) = &added[id];
+                        let v = vocab(l);
+                        for (hid, title) in &got {
+                            let plain: Option<String> = parse_marked(title).map(|x| x.0.into_iter().collect());
+                            let ok = recs.iter().filter(|e| e.0 == *hid).any(|e| { let src: Vec<char> = e.1.chars().collect(); let want: String = ref_compose(&v.accents, &src).into_iter().filter(|c| *c != '\0').collect(); Some(want) == plain });
+                            if !ok && failure.is_none() { failure = Some((format!("store {}: search {:?} returns hit ({}, {:?}) but the records added to this store since it was created / cleared are {:?}", id, q, hid, title, recs), k)); }
+                        }
+                    }
+                    _ => {}
+                }
+                if failure.is_some() { break; }
+            }
+        });
+        for id in live_now.drain(..) { let _ = guarded(|| core::destroy_store(id)); }
+        p.eval(&format!("reg-added|{}", round), true);
+        if let Err(e) = res { p.fail(format!("top-level API panicked: {}", e), case.clone()); return; }
+        if let Some((what, k)) = failure { p.fail(what, Case { ops: case.ops[..=k].to_vec(), ..case.clone() }); return; }
+    }
+}
+
 fn p02(p: &mut ProbeReport, r: &mut Rng, budget: usize) {
+    reg_hits_were_added(p, r, if budget > 5000 { 600 } else { 60 });
     // every inventory letter of every language, stored decomposed as the ONLY combining mark of the title, alone and
     // next to an unrelated precomposed letter: the returned title (markers deleted) is the composed title
     for code in LANGS.iter().skip(1) {
@@ -532,6 +585,40 @@ fn p05(p: &mut ProbeReport, r: &mut Rng, budget: usize) {
                 }
             }
         }
+    }
+    // the same clause through the top-level API (result buffer read with `using_results`): a query with hits, then
+    // queries that resemble nothing in the store, then the first one again
+    for (n, code) in LANGS.iter().cycle().take(LANGS.len() * 6).enumerate() {
+        let v = vocab(code);
+        let lang = make_lang(code);
+        let id = 700_000 + n;
+        let recs: Vec<(usize, String, usize)> = (0..4).map(|i| (i + 1, v.title(r), 10 + i)).collect();
+        if recs.iter().any(|e| has_sentinel(&e.1)) { continue; }
+        let hitq = { let t = r.pick(&recs).1.clone(); query_for(&v, r, &t) };
+        let junk: String = (0..3).map(|_| *r.pick(&['q', 'x', 'z', 'j', '7'])).collect();
+        let mut ops: Vec<Op> = vec![Op::RCreate(id, code.to_string())];
+        for (rid, t, rt) in &recs { ops.push(Op::RAdd(id, *rid, *rt, t.clone())); }
+        let mut bad: Option<(String, usize)> = None;
+        let res = guarded(|| {
+            core::create_store(id, make_lang(code));
+            for (rid, t, rt) in &recs { core::add_record(id, *rid, t, *rt); }
+            for q in [hitq.clone(), junk.clone(), hitq.clone(), format!("{}{}", junk, junk), String::from("0")] {
+                ops.push(Op::RSearch(id, q.clone()));
+                core::run_search(id, &q);
+                let tq = tokenize_query(&q, &lang);
+                if tq.words.is_empty() { continue; }
+                let qg = grams_of(&tq);
+                let got: Vec<(usize, String)> = core::using_results(id, |rs| rs.iter().map(|x| (x.id, x.title.clone())).collect());
+                for (hid, title) in &got {
+                    let related = recs.iter().filter(|e| e.0 == *hid).any(|e| !grams_of(&tokenize_record(&e.1, &lang)).is_disjoint(&qg));
+                    if !related && bad.is_none() { bad = Some((format!("top-level search {:?} reports hit {} {:?}, which shares no gram with the query", q, hid, title), ops.len())); }
+                }
+            }
+        });
+        let _ = guarded(|| core::destroy_store(id));
+        p.eval(&format!("{}|api-related|{}", code, n), true);
+        if let Err(e) = res { p.fail(format!("top-level API panicked: {}", e), Case { name: "c05-api".into(), lang: code.to_string(), stream: "probe", ops: ops.clone() }); }
+        if let Some((what, k)) = bad { p.fail(what, Case { name: "c05-api".into(), lang: code.to_string(), stream: "probe", ops: ops[..k].to_vec() }); }
     }
     let budget = budget + p.evaluations;
     let mut i = 0;
@@ -958,7 +1045,7 @@ fn p09(p: &mut ProbeReport, r: &mut Rng, budget: usize) {
         if i % 2 == 0 {
             // joined spellings with all gap widths
             let a = v.word(r); let b = v.word(r);
-            let gap = *r.pick(&["-", " ", "  ", " - ", "'", "--"]);
+            let gap = *r.pick(&["-", " ", "  ", " - ", "'", "--", "\u{1f}", "\u{7f}", "\u{96}", "\u{2013}", "\u{2026}"]);
             scn.recs.push((99, format!("{}{}{}", a, gap, b), 3));
         }
         if scn.recs.iter().any(|e| has_sentinel(&e.1)) { continue; }
@@ -980,6 +1067,16 @@ fn p09(p: &mut ProbeReport, r: &mut Rng, budget: usize) {
             let mut used = BTreeSet::new();
             for (s, l) in &spans {
                 if *l == 0 { let (w, c) = mk(format!("empty span in {:?}", title)); p.fail(w, c); continue; }
+                // independent of how the record was tokenised: a span lies inside one word, and a word (as the public
+                // tokenizer cuts the same text) contains no white space, control or punctuation character; it starts
+                // with a letter or digit and right after a separator or at the start of the title
+                if let Some(bad) = plain[*s..(*s + *l).min(plain.len())].iter().find(|c| c.is_whitespace() || c.is_control() || CharClass::Punctuation.matches(**c, &lang) == Some(true)) {
+                    let (w, c) = mk(format!("highlighted span at {} len {} contains the separator {:?} in {:?}", s, l, bad, title)); p.fail(w, c);
+                }
+                let pubwords = tokenize_query(&format!("{} ", plain.iter().collect::<String>()), &lang);
+                if pubwords.source.len() == plain.len() && !pubwords.words.iter().any(|w| w.slice.0 == *s && s + l <= w.slice.1) {
+                    let (w, c) = mk(format!("span at {} len {} is not inside one word starting there, as the public tokenizer cuts {:?}", s, l, plain.iter().collect::<String>())); p.fail(w, c);
+                }
                 let wi = t.words.iter().position(|w| idx[w.slice.0] == *s);
                 match wi {
                     None => { let (w, c) = mk(format!("span at {} does not start at a word start in {:?}", s, title)); p.fail(w, c); }
